@@ -518,6 +518,36 @@ def file_mutations(data, quick, is_text=False):
                 if v != cur:
                     muts.append(("u64@%d=%s" % (off, "2^63" if v == 1 << 63 else ("max" if v == (1 << 64) - 1 else ("2^31" if v == 1 << 31 else str(v)))), data[:off] + struct.pack(">Q", v & ((1 << 64) - 1)) + data[off + 8:]))
         muts.append(("append-garbage", data + b"\x00" * 9))
+        # well-formed files with a byte-string attribute of another LENGTH (the value replaced, the length field consistent): fixed-size destinations
+        # in the library (token label 32, serial 16, ...) must not trust the stored length
+        off = 8
+        recs = []
+        try:
+            while off + 16 <= n:
+                t, k = struct.unpack(">QQ", data[off:off + 16])
+                v0 = off + 16
+                if k == 1:
+                    off = v0 + 1
+                elif k == 2:
+                    off = v0 + 8
+                elif k in (3, 4):
+                    ln = struct.unpack(">Q", data[v0:v0 + 8])[0]
+                    if v0 + 8 + ln > n:
+                        break
+                    if k == 3:
+                        recs.append((t, v0, ln))
+                    off = v0 + 8 + ln
+                elif k == 5:
+                    cnt = struct.unpack(">Q", data[v0:v0 + 8])[0]
+                    off = v0 + 8 + 8 * cnt
+                else:
+                    break
+        except struct.error:
+            pass
+        for t, v0, ln in recs:
+            for L in sorted({0, 1, 15, 16, 17, 31, 32, 33, 64, 255, 256, 4097} | ({70000} if not quick else set())):
+                if L != ln:
+                    muts.append(("grow@%d=attr-0x%x-len-%d" % (v0, t, L), data[:v0] + struct.pack(">Q", L) + b"A" * L + data[v0 + 8 + ln:]))
     return muts
 
 
